@@ -4,10 +4,11 @@
      imm <fn> <operand> <int>          same meaning as `<fn> <operand> n:<int>` (immediate opcodes)
      cmpsd <int> <hex16>               compare_int64_double       -> i:<r> | ub
      cmpud <nat> <hex16>               compare_uint64_double      -> i:<r> | ub
+     math/floor|ceil|trunc|round|abs <operand>, math/gcd|lcm <operand> <operand>   (Int64/MathFns.lean)
      link <0|1>                        sets `Cfg.s64BelowU64` (the harness answers `link?` with the order of the two type descriptors)
    IEEE arithmetic on two plain numbers is the model's own (`Ieee.ieee`): exact rational result, rounded once. -/
 import Driver.Util
-import JanetModel.Int64.Ieee
+import JanetModel.Int64.MathFns
 open Driver JanetModel.Int64
 
 /-- IEEE-754 binary64 arithmetic: the executable instance of `Int64/Ieee.lean` (round-to-nearest-even of the exact rational
@@ -68,7 +69,10 @@ def step (cfg : Cfg) (toks : List String) : Cfg × String :=
      | some args =>
        if args.isEmpty then (cfg, "bad-op")
        else if fn.startsWith "m:" then (cfg, showRes (methodCall cfg (fn.drop 2).toString args))
-       else (cfg, showRes (evalFn cfg numOps fn args))
+       else
+         (match Ieee.mathFn fn args with
+          | some r => (cfg, showRes r)
+          | none => (cfg, showRes (evalFn cfg numOps fn args)))
      | none => (cfg, "bad-op"))
   | _ => (cfg, "bad-op")
 
